@@ -54,7 +54,8 @@ SCENARIOS = [
     {"name": "dtd", "threads": [["settasks:", "setpa:100", "ready", "addtasks:1", "addtasks:2", "relpa:100"],
                                 ["take:1", "endtask:1", "take:2", "endtask:2"]]},
     {"name": "leftover", "threads": [["setpa:100", "ready", "addtasks:1", "relpa:100"], ["take:1"]]},
-    {"name": "notready", "threads": [["settasks:1,2", "addpa:100", "relpa:100"], ["take:1", "endtask:1"], ["take:2", "endtask:2"]]},
+    {"name": "notready", "threads": [["setpa:100,101", "addtasks:1,2", "pass:100", "relpa:101"], ["take:100", "take:1", "relpa:100"], ["take:2"]]},
+    {"name": "settasks", "threads": [["settasks:1,2", "ready"], ["take:1", "endtask:1"], ["take:2", "endtask:2"]]},
     {"name": "papass", "threads": [["setpa:100", "ready", "addpa:101", "pass:101", "relpa:100"],
                                    ["take:101", "addpa:102", "relpa:101", "relpa:102"]]},
 ]
@@ -69,11 +70,15 @@ def parse_op(s):
 
 
 def check_contract(threads):
-    """Static check of the usage contract: tokens created once, given back / passed only by their holder, a counter is
-    raised only by a thread holding a token or by Main before ready, set_* only while nothing is live (set-up)."""
+    """Static check of the usage contract: tokens created once, given back / passed only by their holder; a counter is
+    raised only by a thread holding a token, or by Main in the sequential set-up phase (before ready and before it made
+    any load visible to other threads); set_* only while nothing is live; tasks complete only after ready (enforced by a
+    wait in the harness, so a program with endtask needs a ready)."""
     created, taken = set(), set()
+    has_ready = any(s == "ready" for s in threads[MAIN])
     for t, prog in enumerate(threads):
         held, before_ready = set(), (t == MAIN)
+        shared = False           # Main has made load visible to other threads (a task exists or a token was passed)
         nlive_known = 0 if t == MAIN else None
         for s in prog:
             op, toks = parse_op(s)
@@ -85,17 +90,23 @@ def check_contract(threads):
                     nlive_known = None if toks else 0
                 else:
                     nlive_known = None if toks else 0
+                    shared = shared or bool(toks)
             elif op in ("addtasks", "addpa"):
-                assert held or before_ready, "thread %d raises a counter without owning load: %s" % (t, s)
+                assert held or (before_ready and not shared), "thread %d raises a counter without owning load: %s" % (t, s)
                 assert toks and all((k >= 100) == (op == "addpa") for k in toks)
                 assert op == "addtasks" or len(toks) == 1
                 assert op == "addpa" or len(toks) <= 2
                 if op == "addpa":
                     held |= set(toks)
+                else:
+                    shared = True
                 nlive_known = None
             elif op in ("endtask", "relpa", "pass"):
                 assert len(toks) == 1 and toks[0] in held, "thread %d gives back a token it does not hold: %s" % (t, s)
                 assert (toks[0] >= 100) == (op != "endtask")
+                assert op != "endtask" or has_ready, "a task can only complete after ready"
+                if op == "pass":
+                    shared = True
                 held -= set(toks)
             elif op == "take":
                 assert len(toks) == 1 and toks[0] not in taken, s
@@ -117,7 +128,7 @@ def random_program(rng, nthreads=3, nops=9):
     `take` waits make every interleaving of the result legal."""
     progs = [[] for _ in range(nthreads)]
     held = [set() for _ in range(nthreads)]
-    avail, nt, npa, ready, passed = set(), [0], [99], False, set()
+    avail, nt, npa, ready, passed, shared = set(), [0], [99], False, set(), False
 
     def newtask():
         nt[0] += 1
@@ -137,11 +148,11 @@ def random_program(rng, nthreads=3, nops=9):
         idle += 1
         t = rng.randrange(nthreads)
         choices = []
-        if held[t] or (t == MAIN and not ready):
+        if held[t] or (t == MAIN and not ready and not shared):
             choices += ["addtasks", "addtasks", "addpa"]
         if t == MAIN and not ready and (held[MAIN] or avail or any(held) and count >= nops // 2):
             choices += ["ready"]
-        if any(k < 100 for k in held[t]):
+        if ready and any(k < 100 for k in held[t]):
             choices += ["endtask"] * 3
         if any(k >= 100 for k in held[t]):
             choices += ["relpa", "relpa"]
@@ -157,6 +168,7 @@ def random_program(rng, nthreads=3, nops=9):
             toks = [newtask() for _ in range(rng.choice([1, 1, 2]))]
             progs[t].append("addtasks:" + ",".join(map(str, toks)))
             avail |= set(toks)
+            shared = True
             count += 1
         elif op == "addpa":
             k = newpa()
@@ -173,6 +185,7 @@ def random_program(rng, nthreads=3, nops=9):
             held[t].discard(k)
             if op == "pass":
                 avail.add(k)
+                shared = True
                 passed.add(k)       # a token changes hands at most once (keeps `take` unambiguous)
             else:
                 count += 1
@@ -181,8 +194,9 @@ def random_program(rng, nthreads=3, nops=9):
             avail.discard(k)
             progs[t].append("take:%d" % k)
             held[t].add(k)
-    if not ready and rng.random() < 0.85:
+    if not ready and (rng.random() < 0.85 or any(k < 100 for h in held for k in h) or any(k < 100 for k in avail)):
         progs[MAIN].append("ready")
+        ready = True
     # drain (most of the time): everything available is taken by somebody, everything held is given back
     if rng.random() < 0.8:
         for k in sorted(avail):
@@ -191,7 +205,8 @@ def random_program(rng, nthreads=3, nops=9):
             held[t].add(k)
         for t in range(nthreads):
             for k in sorted(held[t]):
-                progs[t].append(("endtask:%d" if k < 100 else "relpa:%d") % k)
+                if k >= 100 or ready:
+                    progs[t].append(("endtask:%d" if k < 100 else "relpa:%d") % k)
     # a thread without operations would still take one scheduler step: drop it (if Main has none, nobody calls
     # ready / raises a counter without owning load, so the renumbering is harmless)
     return [p for p in progs if p] or [["ready"]]
